@@ -58,7 +58,9 @@ class C08(Engine):
             'first-64-bit flips; BER/DER: retag, length +-1/0/indefinite/'
             'huge/long-form, drop/dup/swap node, injected EOC, constructed '
             're-wrap; JER/XER: structural text edits) to a valid encoding of '
-            'a seeded value of a seeded module; non-trivial = the delivered '
+            'a seeded value of a seeded module - or, in climb items, produced '
+            'by up to 600 generations of such recipes with the step clock as '
+            'fitness; non-trivial = the delivered '
             'bytes differ from the valid encoding; distinct = distinct '
             '(codec, type text hash, delivered bytes)')
     assumptions = [
